@@ -30,7 +30,8 @@
 //! Observation syntax:
 //!   <kind> <call> <call> … | <table>=[rows] …
 //!   kind   run | interr (some call failed with an unexpected class) | hang:<t<i>#<k>,…> (calls that did not return within
-//!          the bound plus grace; k = index within the thread) | panic@<file:line>[,hang:…] (first panic of any thread of the process during the case)
+//!          the bound plus grace; k = index within the thread) | protocol:<tag> (a section that relies on a lock was entered
+//!          without it, reported by the yield point <tag>) | panic@<file:line>[,hang:…] (first panic of any thread of the process during the case)
 //!   call   t<i>:<t0>:<t1>:<out>              out as engine `hist` (ok | ok<n> | [rows] | conflict | constraint | … | nosession)
 //!   final contents are read by the harness after all client threads have finished (absent after a hang: `-`)
 use super::hist::{self, Op as HOp, Stmt, Table};
@@ -532,6 +533,7 @@ pub fn run_case(line: &str) -> String {
 
 fn run_in(dir: &std::path::Path, pc: ParsedCase) -> String {
     PANICS.lock().unwrap().clear();
+    let _ = axmosdb::verif::sched::take_not_exclusive();
     let setup = &pc.setup;
     let cfg = DBConfig::builder().cache_size(setup.cache).pool_size(setup.pool).build();
     let db = match Database::create(dir.join("db.axm"), cfg) {
@@ -668,10 +670,15 @@ fn run_in(dir: &std::path::Path, pc: ParsedCase) -> String {
         }
     }
     let panics = PANICS.lock().unwrap().clone();
+    // sections the code relies on being exclusive that were entered without their lock (setup included)
+    let mut not_exclusive = axmosdb::verif::sched::take_not_exclusive();
+    not_exclusive.dedup();
     let kind = if let Some(p) = panics.first() {
         if hung.is_empty() { format!("panic@{}", p) } else { format!("panic@{},hang:{}", p, hung.join(",")) }
     } else if !hung.is_empty() {
         format!("hang:{}", hung.join(","))
+    } else if !not_exclusive.is_empty() {
+        format!("protocol:{}", not_exclusive[0])
     } else if interr {
         "interr".to_string()
     } else {
@@ -822,6 +829,10 @@ enum Shape {
     /// scans next to splits: one writer appends 100–160 rows (multi-row inserts) to a table preloaded to several pages, so
     /// that its right-most leaves split and are redistributed, while 3 readers keep scanning that table
     ScanVsSplit,
+    /// row-id lease race: a table with a UNIQUE key; one thread keeps failing an INSERT of an existing key (it takes a row id and
+    /// gives it back), 2–3 others insert fresh keys; delays between the row-id lease and the constraint check. Every INSERT
+    /// that was acknowledged must be in the final table
+    LeaseRace,
     /// statement level: 3–6 threads, each issuing autocommit SELECT / INSERT / DELETE statements on a table of its own, with
     /// delays at every yield point; judged additionally against each thread's statements run ALONE (non-interference)
     DisjointAuto,
@@ -969,6 +980,26 @@ fn gen_disjoint_auto(rng: &mut Rng) -> Case {
     )
 }
 
+fn gen_lease_race(rng: &mut Rng) -> Case {
+    let mut per_thread: Vec<Vec<String>> = Vec::new();
+    per_thread.push((0..rng.range(10, 16)).map(|_| format!("t1 db ins u {} 0 'd'", rng.range(1, 2))).collect());
+    let nw = rng.range(2, 3) as usize;
+    for t in 2..2 + nw {
+        per_thread.push((1..=rng.range(8, 12)).map(|i| format!("t{} db ins u {} {} 'w'", t, 100 * t as i64 + i, i)).collect());
+    }
+    let nthreads = per_thread.len();
+    let ops = merge(rng, per_thread);
+    let line = format!(
+        "threads tab=u(k:big*,v:int,p:text) row=u:1,10,'i' row=u:2,20,'i' cache=10000 pool={} pace={} | {}",
+        rng.range(4, 8),
+        rng.below(1_000_000_000),
+        ops.join(" ; ")
+    );
+    let mut c = Case::new(line, &["nt", "shape:LeaseRace", "unique_index", "auto_ins", "failing_insert", "same_table_writers", "clean"]);
+    c.tags.push(format!("threads{}", nthreads));
+    with_yields(c, &[("row_id_leased", 500, 600)], "LeaseRace")
+}
+
 fn gen_first_split(rng: &mut Rng) -> Case {
     let mut per_thread: Vec<Vec<String>> = Vec::new();
     let pad = "y".repeat(40);
@@ -1059,7 +1090,11 @@ fn gen_case(rng: &mut Rng, shape: Shape, small_cache: bool) -> Case {
     match shape {
         Shape::YieldSnapshot => {
             let c = gen_snapshot_race(rng);
-            return with_yields(c, &[("snapshot_taken", 400, 1500), ("commit_logged", 300, 800), ("committed", 300, 800)], "YieldSnapshot");
+            return with_yields(
+                c,
+                &[("begin_snapshot", 300, 600), ("snapshot_taken", 400, 1500), ("commit_logged", 300, 800), ("committed", 300, 800)],
+                "YieldSnapshot",
+            );
         }
         Shape::YieldTree => {
             let c = gen_scan_vs_split(rng);
@@ -1068,6 +1103,7 @@ fn gen_case(rng: &mut Rng, shape: Shape, small_cache: bool) -> Case {
         Shape::YieldIndex => return gen_yield_index(rng),
         Shape::FirstSplit => return gen_first_split(rng),
         Shape::DisjointAuto => return gen_disjoint_auto(rng),
+        Shape::LeaseRace => return gen_lease_race(rng),
         _ => {}
     }
     if shape == Shape::SnapshotRace {
@@ -1084,7 +1120,7 @@ fn gen_case(rng: &mut Rng, shape: Shape, small_cache: bool) -> Case {
         Shape::Deep => (g.rng.range(2, 3) as usize, g.rng.range(1, 2) as usize),
         Shape::SameTableReaders => (g.rng.range(1, 3) as usize, g.rng.range(1, 3) as usize),
         Shape::SameTableWriters => (g.rng.range(2, 4) as usize, g.rng.range(0, 1) as usize),
-        Shape::SnapshotRace | Shape::ScanVsSplit | Shape::YieldSnapshot | Shape::YieldTree | Shape::YieldIndex | Shape::FirstSplit | Shape::DisjointAuto => unreachable!(),
+        Shape::SnapshotRace | Shape::ScanVsSplit | Shape::YieldSnapshot | Shape::YieldTree | Shape::YieldIndex | Shape::FirstSplit | Shape::DisjointAuto | Shape::LeaseRace => unreachable!(),
         Shape::SmallCache => (g.rng.range(2, 3) as usize, g.rng.range(1, 2) as usize),
         Shape::FlushConcurrent | Shape::SubQ => (g.rng.range(2, 3) as usize, 1usize),
     };
@@ -1238,6 +1274,7 @@ impl Engine for ThreadsEngine {
             Shape::YieldIndex,
             Shape::FirstSplit,
             Shape::DisjointAuto,
+            Shape::LeaseRace,
         ];
         // cases of the two known-finding regions are spread among the clean ones (a hang costs its supervisor slot 10 s)
         let regions = [Shape::FlushConcurrent, Shape::SubQ];
